@@ -83,6 +83,56 @@ panic("C02", "column-expr-index-out-of-bounds", "index out of bounds: the len is
 panic("C02", "join-reorder-hyper-edge-assertion", "assertion failed: self.hyper_edges.all_non_empty_edges_removed()", "glaredb_core/src/optimizer/join_reorder/graph.rs", "join reordering trips an internal assertion (debug builds) on joins between CTE references with filters", "WITH c AS (..) SELECT .. FROM c x INNER JOIN c y ON (x.a = y.a) WHERE <const false> HAVING ..", ["C01", "C15", "C16", "C03", "C09"])
 panic("C02", "filter-pushdown-table-ref-assertion", "assertion `left == right` failed\n  left: TableRef { table_idx: N }\n right: TableRef { table_idx: N }", "glaredb_core/src/optimizer/filter_pushdown/mod.rs", "filter pushdown trips an internal assert_eq on table refs for UNION branches over derived tables", "SELECT .. FROM (.. GROUP BY CUBE ..) d WHERE d.c = d.c UNION SELECT .. FROM (..) d2, (..) d3, t WHERE ..", ["C01", "C15", "C16", "C03", "C09"])
 
+
+# malformed Parquet input: panics / aborts instead of errors (C19). One entry per panic site.
+PQ = "glaredb_ext_parquet/src/"
+C19_SITES = [
+    ("pq-malformed-bitmap-view", "idx: N, len: N", "glaredb_core/src/arrays/bitmap/view.rs", "a corrupted dictionary index / level byte makes a validity bitmap be indexed out of range", "byte 73 -> 0x04 of an INT32 DICT v2 SNAPPY file"),
+    ("pq-malformed-copy-unwrap", "called `Option::unwrap()` on a `None` value", "glaredb_core/src/arrays/compute/copy.rs", "a corrupted page header (num_values) makes copy_rows unwrap a missing source row", "byte 56 -> 0x00 of an INT32 PLAIN v2 file"),
+    ("pq-malformed-bitutil-index", "index out of bounds: the len is N but the index is N", PQ + "column/bitutil.rs", "corrupted delta header makes the bit unpacker index past its input", "byte 33 -> 0x00 of a DELTA_LENGTH_BYTE_ARRAY file"),
+    ("pq-malformed-delta-div-zero", "attempt to divide by zero", PQ + "column/encoding/delta_binary_packed.rs", "a delta header with zero miniblocks per block divides by zero", "byte 35 -> 0x00 of a DELTA_LENGTH_BYTE_ARRAY file"),
+    ("pq-malformed-delta-sub-overflow", "attempt to subtract with overflow", PQ + "column/encoding/delta_binary_packed.rs", "a corrupted delta header underflows the remaining-values arithmetic", "byte 29 -> 0xFF of a DELTA_BINARY_PACKED file"),
+    ("pq-malformed-delta-byte-array-index", "index out of bounds: the len is N but the index is N", PQ + "column/encoding/delta_byte_array.rs", "corrupted prefix lengths index past the previous value", "byte 29 -> 0xFF of a DELTA_BYTE_ARRAY file"),
+    ("pq-malformed-delta-length-index", "index out of bounds: the len is N but the index is N", PQ + "column/encoding/delta_length_byte_array.rs", "corrupted lengths index past the decoded length buffer", "byte 29 -> 0xFF of a DELTA_LENGTH_BYTE_ARRAY file"),
+    ("pq-malformed-rle-bit-width", "assertion failed: bit_width <= N", PQ + "column/encoding/rle_bit_packed.rs", "a bit width > 64 read from the page trips an assertion", "byte 93 -> 0xFF of an INT32 PLAIN v2 file"),
+    ("pq-malformed-page-add-overflow", "attempt to add with overflow", PQ + "column/page_reader.rs", "corrupted page sizes overflow offset arithmetic in the page reader", "byte 53 -> 0x11 of an INT32 PLAIN v2 file"),
+    ("pq-malformed-page-sub-overflow", "attempt to subtract with overflow", PQ + "column/page_reader.rs", "levels byte length larger than the page underflows the compressed length", "byte 165 -> 0x00 of a DELTA_BINARY_PACKED v2 GZIP file"),
+    ("pq-malformed-page-copy-len", "copy_from_slice: source slice length (N) does not match destination slice length (N)", PQ + "column/page_reader.rs", "compressed_page_size != uncompressed_page_size on an uncompressed page panics in copy_from_slice", "byte 7 -> 0x00 of an INT32 PLAIN v2 file"),
+    ("pq-malformed-page-slice-range", "range end index N out of range for slice of length N", PQ + "column/page_reader.rs", "level byte lengths beyond the page buffer panic when slicing", "byte 24 -> 0x80 of a DELTA_BINARY_PACKED v2 file"),
+    ("pq-malformed-read-buffer-remaining", "remaining: N, need: N", PQ + "column/read_buffer.rs", "a page that ends early makes the read cursor assert on remaining bytes", "byte 20 -> 0x00 of an INT32 PLAIN v2 file"),
+    ("pq-malformed-negative-column-range", "column start and length should not be negative", PQ + "metadata/mod.rs", "negative offsets/sizes in ColumnMetaData hit an assert", "byte 241 -> 0x59 of an INT32 PLAIN file footer"),
+    ("pq-malformed-stats-index", "index out of bounds: the len is N but the index is N", PQ + "metadata/statistics.rs", "zero-length min/max statistics bytes are indexed unconditionally", "byte 283 -> 0x00 of a STRING file footer"),
+    ("pq-malformed-stats-slice-range", "range end index N out of range for slice of length N", PQ + "metadata/statistics.rs", "min/max statistics shorter than the physical type's width panic when sliced (e.g. after a type change in the footer)", "lie rg0.col0.type=1 on a BOOLEAN file"),
+    ("pq-malformed-num-rows-overflow", "attempt to add with overflow", PQ + "reader.rs", "a row group num_rows of 2^63-1 overflows the running row offset", "lie rg0.num_rows=2^63-1"),
+    ("pq-malformed-thrift-shift", "attempt to shift left with overflow", PQ + "thrift.rs", "an over-long varint in the footer overflows the shift in the thrift reader", "byte 164 -> 0x95 of a STRING PLAIN file"),
+    ("pq-malformed-thrift-unimplemented", "not implemented", PQ + "thrift.rs", "an unexpected thrift element type hits unimplemented!() in the footer reader", "byte 70 -> 0xFF of an INT32 PLAIN file"),
+    ("pq-malformed-delta-miniblock-index", "index out of bounds: the len is N but the index is N", PQ + "column/encoding/delta_binary_packed.rs", "a corrupted miniblock count indexes past the bit-width table", "byte 156 -> 0x01 of a DELTA_BYTE_ARRAY file"),
+    ("pq-malformed-dictionary-sub-overflow", "attempt to subtract with overflow", PQ + "column/encoding/dictionary.rs", "a corrupted dictionary index page underflows in the dictionary decoder", "byte 191 -> 0xA6 of a STRING DICT file"),
+    ("pq-malformed-read-buffer-assert", "assertion failed: self.remaining >= num_bytes", PQ + "column/read_buffer.rs", "corrupted lengths make the read cursor assert on remaining bytes", "byte 23 -> 0xFF of a DELTA_LENGTH_BYTE_ARRAY file"),
+    ("pq-malformed-thrift-capacity-overflow", "capacity overflow", PQ + "format.rs:read_from_in_protocol", "a huge list length in the footer makes Vec::with_capacity panic ('capacity overflow')", "byte 437 -> 0x00 of a file footer"),
+    ("pq-malformed-thrift-slice-range", "range end index N out of range for slice of length N", PQ + "thrift.rs", "a binary field length beyond the page header buffer panics when slicing", "byte 57 -> 0x01 of a BOOLEAN RLE v2 file"),
+]
+for fid, msg, frame, what, example in C19_SITES:
+    panic("C19", fid, msg, frame, "malformed Parquet input panics instead of returning an error: " + what, example, ["C15", "C16", "C10"])
+F.append({"status": "open", "property": "C19", "id": "pq-malformed-dictionary-size-alloc-abort", "signature": {"kind": "outcome", "class": "alloc-abort", "frame": "glaredb_core/src/buffer/buffer_manager.rs"},
+          "what": "a dictionary page header announcing 2^31-1 values makes the reader allocate for that many entries before looking at the page size; under a 4 GiB address-space cap the process aborts ('memory allocation of N bytes failed')",
+          "example": "lie rg0.col1.dict.num_values=2147483647", "also": ["C15", "C16"]})
+F.append({"status": "open", "property": "C19", "id": "pq-malformed-delta-total-values-alloc-abort", "signature": {"kind": "outcome", "class": "alloc-abort", "frame": "glaredb_ext_parquet/src/column/encoding/delta_binary_packed.rs"},
+          "what": "a corrupted DELTA header announcing a huge value count makes the decoder allocate for it before checking the page size; under the 4 GiB cap the process aborts",
+          "example": "byte 733 -> 0xFF of a DELTA_BYTE_ARRAY file", "also": ["C15", "C16"]})
+fixed("C19", "pq-chunk-range-beyond-eof-spin-or-abort", "7bb335251", "read_parquet trusted the footer's column-chunk byte range: a range past EOF made Reader::poll_fetch spin forever on zero-byte reads; a huge length aborted on allocation", ["C15"])
+fixed("C19", "pq-footer-length-unchecked", "b391e4093", "the footer's metadata length sized a buffer without a file-size check (multi-GiB allocation + zeroing for a corrupt trailer)", ["C15"])
+fixed("C10", "pq-delta-binary-packed-multi-read", "3a2a4d053", "DELTA_BINARY_PACKED returned wrong rows whenever a page was read in more than one batch (previous value re-emitted at each call) and panicked on single-value pages", ["C16", "C03"])
+fixed("C10", "pq-int96-before-epoch", "07fa15e89", "INT96 timestamps before 1970 panicked (subtract with overflow) / wrapped", ["C15"])
+fixed("C10", "pq-binary-delta-utf8-validated", "a6a95659f", "BINARY columns with DELTA_LENGTH_BYTE_ARRAY / DELTA_BYTE_ARRAY were UTF-8 validated and failed on non-UTF-8 bytes", [])
+fixed("C10", "pq-v2-is-compressed-ignored", "274a5a0ab", "data page v2 is_compressed=false was ignored when the chunk declares a codec", [])
+fixed("C11", "pq-pruning-deprecated-stats-unsigned", "1d88cdccf", "row-group pruning trusted deprecated signed-order min/max on unsigned columns and pruned groups containing the searched value", [])
+fixed("C11", "glob-absolute-path-root", "232040201", "globs over absolute local paths were resolved relative to the working directory", [])
+fixed("C08", "double-sort-key-shift", "78d51c9d1", "ORDER BY on DOUBLE mis-ordered values differing only in the low 32 mantissa bits (sort key used bits >> 31)", ["C01"])
+fixed("C03", "ctas-empty-input-no-table", "ff2c19832", "CREATE TABLE AS over an input that produced no batches did not create the table", ["C14"])
+fixed("C02", "join-condition-extractor-drops-comparison", "e1c0bff10", "comparisons whose one operand references both join sides were dropped by join-condition extraction (predicate silently not applied)", ["C01", "C06"])
+fixed("C01", "cross-join-right-associative", "065fe48f5", "a CROSS JOIN b <JOIN> c ON .. was parsed as a CROSS JOIN (b JOIN c)", ["C06"])
+
 T1 = ["CREATE TEMP TABLE t1 (k INT, a1 BOOLEAN, b1 INT)", "INSERT INTO t1 VALUES (CAST(NULL AS INT), true, 1), (5, true, 2), (5, false, 3), (7, NULL, 4), (-61, true, 5)"]
 case("C02", "optimizer-distributive-or-absorption", "the distributive-OR rewrite turns (X AND A) OR A into A AND X (it should be A): rows are lost whenever one OR branch consists only of terms common to all branches. A unit test of the repository (distribute_eliminate_or_with_single_remaining) asserts this wrong rewrite, so it cannot be repaired without editing the test suite",
      T1, "SELECT b1 FROM t1 WHERE ((b1 > 100 AND a1) OR (a1 AND a1))", {"outcome": "rows", "rows": [[1], [2], [5]]}, {"outcome": "rows", "rows": []}, ["C01", "C05"])
